@@ -262,7 +262,8 @@ func init() {
 		Min:   1,
 		Doc: "the cursor's path is a chain root→…→current node, each entry the child of the one below it: an entry pushed by a Cursor method " +
 			"whose node may be the node of the entry that is currently on top (read from path[len-1].node, possibly through a loop variable) " +
-			"is preceded on every path by a pop of that entry; otherwise the top entry is on the path twice and later steps return to the stale copy.",
+			"is preceded on every path by a pop of that entry; otherwise the top entry is on the path twice and later steps return to the stale copy. " +
+			"A push or pop may be written inside a helper (c.push(entry), c.pop()): a helper's push of a node it is handed is judged at every call of the helper, with the argument's node.",
 		Run: runCURSORPUSH,
 	})
 }
@@ -342,126 +343,7 @@ func mayBeTopNode(v ssa.Value, seen map[ssa.Value]bool) bool {
 	return false
 }
 
-func runCURSORPUSH(c *Ctx) {
-	P := c.P
-	n := 0
-	for _, fn := range P.Funcs {
-		if fn.Pkg.Pkg.Path() != ir.MastPath || fn.Signature.Recv() == nil || !ir.IsPtrToNamed(fn.Signature.Recv().Type(), "Cursor") {
-			continue
-		}
-		var isPop func(i ssa.Instruction) bool
-		isPop = func(i ssa.Instruction) bool {
-			if call, ok := i.(*ssa.Call); ok {
-				// c.pop(): a Cursor helper that pops on every path
-				if h := ir.Callee(call.Call); h != nil && h != fn && h.Blocks != nil && h.Signature.Recv() != nil && ir.IsPtrToNamed(h.Signature.Recv().Type(), "Cursor") {
-					return allReturnsPass(h, func(j ssa.Instruction) bool {
-						if _, isCall := j.(*ssa.Call); isCall {
-							return false
-						}
-						return isPop(j)
-					})
-				}
-				return false
-			}
-			st, ok := i.(*ssa.Store)
-			if !ok || !isCursorPath(st.Addr) {
-				return false
-			}
-			sl, ok := st.Val.(*ssa.Slice)
-			if !ok || sl.High == nil {
-				return false
-			}
-			// path[:len(path)-1] (or a shorter prefix computed from it)
-			if bin, ok := sl.High.(*ssa.BinOp); ok && bin.Op == token.SUB {
-				if k, isK := ir.ConstInt(bin.Y); isK && k >= 1 {
-					return true
-				}
-			}
-			return false
-		}
-		for _, b := range fn.Blocks {
-			for _, ins := range b.Instrs {
-				call, ok := ins.(*ssa.Call)
-				if !ok {
-					continue
-				}
-				if bi, ok := call.Call.Value.(*ssa.Builtin); !ok || bi.Name() != "append" || len(call.Call.Args) != 2 {
-					continue
-				}
-				ld, ok := call.Call.Args[0].(*ssa.UnOp)
-				if !ok || ld.Op != token.MUL || !isCursorPath(ld.X) {
-					continue
-				}
-				// the node field of the pushed entry
-				sl, ok := call.Call.Args[1].(*ssa.Slice)
-				if !ok {
-					continue
-				}
-				arr, ok := sl.X.(*ssa.Alloc)
-				if !ok || arr.Referrers() == nil {
-					continue
-				}
-				var pushed []ssa.Value
-				for _, r := range *arr.Referrers() {
-					ia, ok := r.(*ssa.IndexAddr)
-					if !ok || ia.Referrers() == nil {
-						continue
-					}
-					for _, r2 := range *ia.Referrers() {
-						switch y := r2.(type) {
-						case *ssa.FieldAddr:
-							if ir.FieldName(y.X.Type(), y.Field) == nodeFieldName && y.Referrers() != nil {
-								for _, r3 := range *y.Referrers() {
-									if st, ok := r3.(*ssa.Store); ok && st.Addr == ssa.Value(y) {
-										pushed = append(pushed, st.Val)
-									}
-								}
-							}
-						case *ssa.Store:
-							// whole entry stored: a struct value; its node is not tracked here
-							if y.Addr == ssa.Value(ia) {
-								// the entry is a composite literal built in a local and copied in: its node field
-								if ld, ok := y.Val.(*ssa.UnOp); ok && ld.Op == token.MUL {
-									if lit, ok := ld.X.(*ssa.Alloc); ok && lit.Referrers() != nil {
-										for _, r3 := range *lit.Referrers() {
-											if fa, ok := r3.(*ssa.FieldAddr); ok && ir.FieldName(fa.X.Type(), fa.Field) == nodeFieldName && fa.Referrers() != nil {
-												for _, r4 := range *fa.Referrers() {
-													if st, ok := r4.(*ssa.Store); ok && st.Addr == ssa.Value(fa) {
-														pushed = append(pushed, st.Val)
-													}
-												}
-											}
-										}
-									}
-								}
-							}
-						}
-					}
-				}
-				for _, pv := range pushed {
-					if !isNodePtr(pv.Type()) {
-						continue
-					}
-					n++
-					what := fmt.Sprintf("push of node %s onto the cursor path in %s", pathDesc(ir.Sym(pv)), ir.FuncName(fn))
-					if !mayBeTopNode(pv, map[ssa.Value]bool{}) {
-						c.OK(P.InstrPos(call), what, "the node is a freshly followed child, never the current top entry's node", false)
-						continue
-					}
-					if ir.MustPass(call, isPop) {
-						c.OK(P.InstrPos(call), what, "may be the top entry's node, and that entry is popped on every path before the push", false)
-					} else {
-						c.Violation(fn, P.InstrPos(call), "top entry pushed again without being popped",
-							"the pushed node can be the node of the entry already on top of the path: the path then holds it twice, and a later Forward/Backward that pops one copy continues from the stale one (keys are revisited or skipped)")
-					}
-				}
-			}
-		}
-	}
-	if n == 0 {
-		c.AnchorMissing("pushes onto Cursor.path")
-	}
-}
+// runCURSORPUSH: r_cursorpush.go (pushes and pops written in the method or inside helpers it calls).
 
 // ---- PATHINDEX -----------------------------------------------------------------------
 //
